@@ -132,7 +132,7 @@ fn search(unit: &str, tag: &str, tier: &str) -> Option<Value> {
         "c11_flags" if tag.starts_with("C12") => c12::search_lex(tier),
         "c11_decl" | "c11_lex" | "c09_lexer" | "c11_flags" | "c11_access" => c11::search(tag, tier),
         "c15_cache" => c15::search_codegen(tier),
-        "c10_grammar" | "c10_validate" | "c10_prods" | "c10_rule" | "c10_ast" => if tag.starts_with("C15") { c15::search(tag, tier) } else { c10::search(tag, tier).or_else(|| c10r::search(tier)) },
+        "c10_grammar" | "c10_validate" | "c10_prods" | "c10_rule" | "c10_ast" | "c10_access" => if tag.starts_with("C15") { c15::search(tag, tier) } else { c10::search(tag, tier).or_else(|| c10r::search(tier)) },
         "c03_expect" => c03::search(tag, tier),
         "c16_graph" => if tag.starts_with("C03") { c03::search(tag, tier) } else { c16::search(tag, tier) },
         "c03_resolve" | "c03_prodprec" => c03r::search(tag, tier),
